@@ -123,9 +123,11 @@ def gen_case(seed, tier="quick"):
                 w = gen_vec(rng, odim, kinds if obe == "obj" else ("float",), hazard=hz and rng.random() < 0.35, be=obe if obe != "scalar" else "obj")
                 if obe == "scalar":
                     w = {"be": "scalar", "v": 2.5}
+                if rng.random() < 0.06:
+                    w = {"be": "self"}      # v += v, v -= v, numpy.add(a, v, out=v)
                 st = {"s": kind, "op": op, "arg": w}
                 if kind == "out":
-                    st["arg0"] = gen_vec(rng, dim, kinds, hazard=hz and rng.random() < 0.2, be=be)
+                    st["arg0"] = gen_vec(rng, dim, kinds, hazard=hz and rng.random() < 0.2, be=be) if rng.random() < 0.85 else {"be": "self"}
             else:
                 f = rng.choice((2.0, 0.5, -1.5, 3, 1.0, -1, {"$": "f64", "v": 1.25}, 0.0 if rng.random() < 0.3 else 4.0, 0 if rng.random() < 0.3 else 2))
                 if rng.random() < 0.03:
@@ -396,18 +398,25 @@ def run_case(case, vector):
         # ---- in-place operator / out= -------------------------------------------------
         opn = st["op"]
         snap0 = clone(v)
+        def _operand(spec, for_functional):
+            if isinstance(spec, dict) and spec.get("be") == "self":
+                return snap0 if for_functional else v     # the functional twin works on the copy taken before the step
+            return build(vector, spec) if isinstance(spec, dict) and "be" in spec else _decode_num(spec)
+
         if kind == "iop":
-            arg = build(vector, st["arg"]) if isinstance(st["arg"], dict) and "be" in st["arg"] else _decode_num(st["arg"])
-            arg_before = state_bits(arg) if hasattr(arg, "azimuthal") and not isinstance(arg, numpy.ndarray) else None
+            arg = _operand(st["arg"], False)
+            arg_before = state_bits(arg) if (hasattr(arg, "azimuthal") and not isinstance(arg, numpy.ndarray) and arg is not v) else None
             fn = {"iadd": operator.add, "isub": operator.sub, "imul": operator.mul, "itruediv": operator.truediv}[opn]
             ifn = getattr(operator, opn)
-            func_args = (snap0, arg)
+            func_args = (snap0, _operand(st["arg"], True) if isinstance(st["arg"], dict) and st["arg"].get("be") == "self" else arg)
         else:
             uf = getattr(numpy, opn)
             if opn in ("add", "subtract"):
-                a0 = build(vector, st["arg0"])
-                arg = build(vector, st["arg"])
-                func_args = (a0, arg)
+                a0 = _operand(st["arg0"], False)
+                arg = _operand(st["arg"], False)
+                func_args = (_operand(st["arg0"], True) if st["arg0"].get("be") == "self" else a0,
+                             _operand(st["arg"], True) if isinstance(st["arg"], dict) and st["arg"].get("be") == "self" else arg)
+                live_args = (a0, arg)
             elif opn == "negative":
                 a0 = build(vector, {**case["start"]}) if False else snap0
                 arg = None
@@ -436,7 +445,10 @@ def run_case(case, vector):
             if kind == "iop":
                 res = ifn(v, arg)
             else:
-                res = fn(*func_args, out=(v,)) if opn != "negative" else fn(snap0, out=(v,))
+                if opn in ("add", "subtract"):
+                    res = fn(*live_args, out=(v,))     # the real call may have v itself among its inputs
+                else:
+                    res = fn(*func_args, out=(v,)) if opn != "negative" else fn(snap0, out=(v,))
             exc = None
         except Exception as e:
             exc = e
